@@ -112,6 +112,11 @@ def run_params(cname, params):
     try:
         for pr in sym.explore(body, max_paths=c.max_paths, timeout_ms=c.timeout_ms, backend=c.backend):
             out["paths"] += 1
+            if out["paths"] % 100 == 0 and not _KEEP:
+                # the cyclic collector is off (see keep_solvers_alive); as long as this worker never created a real
+                # Boolector instance, collecting is safe and keeps long explorations from growing without bound
+                import gc
+                gc.collect()
             out["solver_s"] += pr.solver_s
             if not pr.feasible_end:
                 out["vacuous_paths"] = out.get("vacuous_paths", 0) + 1
@@ -134,7 +139,16 @@ def run_params(cname, params):
 
 
 def run_chunk(cname, chunk):
-    return [run_params(cname, p) for p in chunk]
+    out = [run_params(cname, p) for p in chunk]
+    try:
+        import resource
+        rss = resource.getrusage(resource.RUSAGE_SELF).ru_maxrss // 1024
+        if rss > 1024 and os.environ.get("PYVC_MEMLOG"):
+            with open(os.environ["PYVC_MEMLOG"], "a") as f:
+                f.write("%d MB pid=%d %s %r\n" % (rss, os.getpid(), cname, chunk[:1]))
+    except Exception:
+        pass
+    return out
 
 
 # ---------------------------------------------------------------------------------------------------
